@@ -291,9 +291,55 @@ def case(rec, pvl, dialect, key):
     rec.count(f"texts[{dialect}]")
     wit["text"] = text[:1500]
     check_text(rec, dialect, cfg, before, gm.module, text, wit)
+    if rng.random() < 0.2:
+        custom_classes_case(rec, pvl, dialect, cfg, before, text, wit)
     rec.case((dialect, key), True,
              sample={"dialect": dialect, "cfg": cfg, "text": text[:400]}
              if rec.c["evaluations"] % 1499 == 0 else None)
+
+
+_CUSTOM = {}
+
+
+def custom_classes_case(rec, pvl, dialect, cfg, module, text, wit):
+    """The same module built from the caller's own group and object classes,
+    written by an encoder told about them (group_class=, object_class=), must
+    give the same text: which keyword a block gets is decided by those
+    classes, not by PVLGroup / PVLObject."""
+    col = pvl.collections
+    if "classes" not in _CUSTOM:
+        class MyGroup(col.PVLAggregation):
+            pass
+
+        class MyObject(col.PVLAggregation):
+            pass
+        _CUSTOM["classes"] = (MyGroup, MyObject)
+    MyGroup, MyObject = _CUSTOM["classes"]
+
+    def convert(c, top=False):
+        out = (col.PVLModule if top else MyGroup if isinstance(c, col.PVLGroup)
+               else MyObject)()
+        for k, v in list(c):
+            out.append(k, convert(v) if is_container(v) else v)
+        return out
+
+    try:
+        enc = make_encoder(pvl, dialect, dict(cfg, group_class=MyGroup,
+                                              object_class=MyObject))
+        got = enc.encode(convert(module, top=True))
+    except (ValueError, TypeError) as e:
+        got = ("refused", type(e).__name__)
+    rec.count("custom_container_class_dumps")
+    if got != text and isinstance(got, str) and "{" in text:
+        # the elements of a set may be written in another order
+        from .c07 import tokens_outside_quotes
+        if tokens_outside_quotes(got) == tokens_outside_quotes(text):
+            return
+    if got != text:
+        rec.violation(CHECK, dialect, "custom-container-classes-change-the-text", {},
+                      dict(wit, with_custom_classes=repr(got)[:800]),
+                      "group_class= / object_class= given to the encoder and used "
+                      "in the module: different text")
 
 
 def shard(i, n, tier, seed, rec, hb):
